@@ -34,10 +34,11 @@ type Ctx struct {
 	NPkgs       int
 	Files       []string
 	// new-function transparency (inline.go)
-	allKnown bool // treat every function as known (controls package)
-	frames   []ssa.CallInstruction
-	siteMemo map[*ssa.Function]ssa.CallInstruction
-	siteDone map[*ssa.Function]bool
+	allKnown    bool // treat every function as known (controls package)
+	frames      []ssa.CallInstruction
+	siteMemo    map[*ssa.Function]ssa.CallInstruction
+	nilTestMemo map[*ssa.Function]map[ssa.Value]int
+	siteDone    map[*ssa.Function]bool
 }
 
 func loadCtx(dir string, pkgPath string) (*Ctx, error) {
